@@ -183,6 +183,12 @@ func c06Case(r *obs.Run, i int) {
 			d.(seq.Appender).AppendLetters(alphabet.Letter('a'), alphabet.Letter('c'))
 			d.SetOffset(7)
 		}
+		if op == "truncate" && rng.Intn(3) == 0 { // a reused destination that was circular: the result must still be linear
+			if cs, ok := d.(seq.ConformationSetter); ok {
+				cs.SetConformation(feat.Circular)
+				r.Count("truncate_into_circular_destination", 1)
+			}
+		}
 		return d
 	}
 	// checkResult compares dst with the expected letters and the source with its original state.
@@ -208,6 +214,10 @@ func c06Case(r *obs.Run, i int) {
 			sl, sq, ss := c06Obs(src, m.IsQ)
 			if sl != m.L || (m.IsQ && string(sq) != string(m.Q)) || ss != m.Off {
 				fail(op+"-source-changed", fmt.Sprintf("%s: the source changed: %q at %d, was %q at %d", op, sl, ss, m.L, m.Off))
+				return false
+			}
+			if (src.Conformation() == feat.Circular) != m.Circ {
+				fail(op+"-source-changed", fmt.Sprintf("%s: the source's conformation changed to %v (circular before: %v)", op, src.Conformation(), m.Circ))
 				return false
 			}
 			// storage independence, both directions
